@@ -142,7 +142,8 @@ def run(ctx):
     ctx.cov['distribution'] = dist
     ctx.cov['rule'] = ('trees: ALL 676 shapes over {leaf, left-only, right-only, binary} of depth <= 3, each with the natural '
                        'labelling (leaf=TERMINAL, inner=FUNCTION) and with a seeded random labelling; seeded samples of depth-4 '
-                       'shapes (half uniform, half skewed towards unary chains); trees grown by TreeSpace.grow over random '
+                       'shapes (half uniform, half skewed towards unary chains); 26 fixed deep trees (chains, zigzags, combs of depth 5..9, the '
+                       'full tree of depth 5) in two labellings; trees grown by TreeSpace.grow over random '
                        'subsets of the ten functions. evaluations = calls of the real properties/methods (4 measurements + 2 '
                        'orders + find_node(p) for every p in [0, size+1] per tree); distinct_nontrivial = distinct labelled '
                        'shapes with at least 2 nodes. The depth<=3 part is exhaustive, the rest is sampled (exhaustive=false overall).')
